@@ -1634,7 +1634,7 @@ def mon_C14(rng, budget, tier):
             if g is None:
                 continue
             mon.count("first-call injection points", g["points"])
-            mon.count("first-call injection points where B blocked", g["blocked"])
+            mon.count("first-call injection points not explored (B blocked, or no fork)", g["blocked"])
             if g["A"] != sa:
                 mon.fail("threads: result differs from the sequential result", case,
                          "thread A (first call of a fresh process, B interleaved): sequential %s / interleaved %s" % (str(sa)[:300], str(g["A"])[:300]))
@@ -1665,7 +1665,11 @@ def b_in_fork():
     # the process is forked while A stands between two lines; in the copy a second thread runs B's whole call (A never
     # resumes there), so B sees exactly the shared state A has built so far and A's own run is left undisturbed
     r, w = os.pipe()
-    pid = os.fork()
+    try:
+        pid = os.fork()
+    except OSError:        # no process to be had just now: this point is not explored (counted with the blocked ones)
+        os.close(r); os.close(w)
+        return "__BLOCKED__"
     if pid == 0:
         try:
             os.close(r)
